@@ -121,7 +121,10 @@ _NATIVE_CODE = (
 def _native_proc(jobs, timeout=1800):
     env = dict(os.environ)
     env.pop("NUMBA_DISABLE_JIT", None)
-    env["PYTHONPATH"] = ROOT
+    alt = os.environ.get("VERIF_STRAX_ROOT")
+    env["PYTHONPATH"] = (alt + os.pathsep + ROOT) if alt else ROOT
+    if alt:
+        env["NUMBA_CACHE_DIR"] = os.path.join(alt, ".numba_cache")
     env.setdefault("NUMBA_CACHE_DIR", os.path.join(ROOT, ".numba_cache"))
     p = subprocess.run([PY, "-c", _NATIVE_CODE], input=json.dumps(jobs, default=str), capture_output=True,
                        text=True, env=env, timeout=timeout, cwd=ROOT)
